@@ -651,6 +651,13 @@ func (vt *Model) decstbm(pm [][]int) {
 		top = row(pm[0][0] - 1)
 		bot = row(pm[1][0] - 1)
 	}
+	// a parameter of 0 means 1; the region cannot extend past the screen
+	if top < 0 {
+		top = 0
+	}
+	if bot > row(vt.height())-1 {
+		bot = row(vt.height()) - 1
+	}
 	if top >= bot {
 		return
 	}
